@@ -6,6 +6,8 @@
 // while the threads run: entities live in fixed tables and every slot is written by exactly
 // one thread.
 #include "harness.hpp"
+#include <trompeloeil/stream_tracer.hpp>
+#include <sstream>
 #include <atomic>
 #include <cstdarg>
 #include <cstring>
@@ -82,7 +84,12 @@ struct HTracer : trompeloeil::tracer
   }
   int id;
 };
-static std::vector<HTracer*> g_tracers;
+// kind 1: the library's own stream_tracer writing to one shared stream - it has no lock of its own, so the library has to
+// call it with the global lock held (ThreadSanitizer sees it when a call is traced without)
+struct STracer : trompeloeil::stream_tracer { explicit STracer(std::ostream& os) : trompeloeil::stream_tracer(os) {} };
+static std::ostringstream g_trace_sink;
+struct TracerRec { HTracer* h; STracer* s; };
+static std::vector<TracerRec> g_tracers;
 
 struct Rep
 {
@@ -214,8 +221,8 @@ static void exec(Op& op, int idx)
     g_objs[op.a[0]] = Obj{};
     delete o.m; delete o.n; delete o.wm; delete o.wp;
   }
-  else if (k == "tr") { g_tracers.push_back(new HTracer(op.a[0])); }
-  else if (k == "rmtr") { if (!g_tracers.empty()) { delete g_tracers.back(); g_tracers.pop_back(); } }
+  else if (k == "tr") { if (op.a[1] == 1) g_tracers.push_back({nullptr, new STracer(g_trace_sink)}); else g_tracers.push_back({new HTracer(op.a[0]), nullptr}); }
+  else if (k == "rmtr") { if (!g_tracers.empty()) { delete g_tracers.back().h; delete g_tracers.back().s; g_tracers.pop_back(); g_trace_sink.str(std::string()); } }
   else if (k == "seq") { g_seqs[op.a[0]] = std::make_unique<trompeloeil::sequence>(); }
   else if (k == "rmseq") { g_seqs[op.a[0]].reset(); }
   else H::emit("! bad-op %s", k.c_str());
@@ -278,7 +285,7 @@ static Op parse(std::string const& line)
   }
   else if (op.kind == "obj") { op.a[0] = I(1); op.fn = t.at(2); }
   else if (op.kind == "mvobj") { op.a[0] = I(1); op.a[1] = I(2); }
-  else { op.a[0] = t.size() > 1 ? I(1) : 0; }
+  else { op.a[0] = t.size() > 1 ? I(1) : 0; op.a[1] = t.size() > 2 ? I(2) : 0; }
   (void)first;
   return op;
 }
